@@ -85,7 +85,7 @@ func (p DockerTagPather) BlobPath(name string) (string, error) {
 
 // NameFromBlobPath converts a tag path back into repo:tag format.
 func (p DockerTagPather) NameFromBlobPath(bp string) (string, error) {
-	re := regexp.MustCompile(p.BasePath() + "/(.+)/_manifests/tags/(.+)/current/link")
+	re := regexp.MustCompile(regexp.QuoteMeta(p.BasePath()) + "/(.+)/_manifests/tags/(.+)/current/link")
 	matches := re.FindStringSubmatch(bp)
 	if len(matches) != 3 {
 		return "", errors.New("invalid docker tag path format")
@@ -116,7 +116,7 @@ func (p ShardedDockerBlobPather) BlobPath(name string) (string, error) {
 
 // NameFromBlobPath converts a sharded blob path back into raw hex format.
 func (p ShardedDockerBlobPather) NameFromBlobPath(bp string) (string, error) {
-	re := regexp.MustCompile(p.BasePath() + "/sha256/../(.+)/data")
+	re := regexp.MustCompile(regexp.QuoteMeta(p.BasePath()) + "/sha256/../(.+)/data")
 	matches := re.FindStringSubmatch(bp)
 	if len(matches) != 2 {
 		return "", errors.New("invalid sharded docker blob path format")
